@@ -138,7 +138,10 @@ def replay(rep):
     g, ev, s = rep['input']
     o = [x for x in _a()._scoring_table if x['gender'] == g and x['event_code'] == ev]
     if not o:
-        got = _a().performance(g, ev, s)
+        try:
+            got = _a().performance(g, ev, s)
+        except Exception as e:
+            got = 'raises %s' % type(e).__name__
         print('performance(%r,%r,%r) -> %r (required None)' % (g, ev, s, got))
         return 1 if got is not None else 0
     ok, d = check_target(o[0], s)
@@ -197,14 +200,15 @@ def main(tier, seed):
             run.add_function(d)
         U.absorb(run, res)
     for g, ev in unknown_pairs():
-        try:
-            got = a.performance(g, ev, 500)
-        except Exception as e:
-            got = 'raises %s' % type(e).__name__
-        name = 'performance/unknown-pair-gives-None/%s-%s' % (g, ev)
-        run.record(name, 'ground', 'proved' if got is None else 'refuted', 'ground-evaluation', 0.0, 'unknown')
-        if got is not None:
-            run.violation(name, dict(call='athlon_performance_needed(%r,%r,500)' % (g, ev), observed=got, required=None, input=[g, ev, 500]), True)
+        for tgt in (500, 1, 0, -1, -10, 1500):           # "no mark at all" whatever the target, negative and zero included
+            try:
+                got = a.performance(g, ev, tgt)
+            except Exception as e:
+                got = 'raises %s' % type(e).__name__
+            name = 'performance/unknown-pair-gives-None/%s-%s/%d' % (g, ev, tgt)
+            run.record(name, 'ground', 'proved' if got is None else 'refuted', 'ground-evaluation', 0.0, 'unknown')
+            if got is not None:
+                run.violation(name, dict(call='athlon_performance_needed(%r,%r,%r)' % (g, ev, tgt), observed=got, required=None, input=[g, ev, tgt]), True)
     run.extra['exhaustive'] = True
     run.extra['targets_evaluated'] = tot
     return run.finish()
